@@ -1,5 +1,20 @@
 (* C04 model driver: reads the same case file as drv.c, runs the extracted Gallina model
-   (Vecmodel.wstep_lex) and prints the same canonical lines.  Only parsing and printing live here. *)
+   (Vecmodel.wstep_lex) and prints the same canonical lines.  Only parsing and printing live here.
+
+   CASE LINES and OUTPUT LINE: exactly as documented at the top of harness/C04/drv.c:
+     <ret> d=[..] e=[..] [x:z=..,n=..,m=..,p=..] <container>.. L=<blocks>:<bytes>
+     <container> = " v0:nil" | " v0:z=<siz>,n=<num>,m=<mem>,p=<0|1>,o=<owned>[e,..] acc=<A>"
+                   <owned> = what the model's ledger (w_heap.h_live) records for the storage block: its size, for
+                   the buffer its size minus BUF_HDR = 24; 0 without storage; "?" if the block is not live
+   What stands for the entry points the model has no separate code for (coq/C04/AccDefs.v, AccProofs.v):
+     acc=ok        Vecmodel.vec_acc_check / buf_acc_check: the model's accessors (arr_at_, arr_top_, arr_end_,
+                   arr_at, arr_of, arr_top, arr_end, the field accessors) evaluated on the state just printed
+                   and compared with the same expected values as in drv.c (acc=MODEL-BAD if that ever fails;
+                   theorem accessor_verdict_ok: it cannot in a state satisfying the invariant)
+     push / pull   Vecmodel.oPush / oPull (= OPushBack / OPullBack, theorem aliases_are_push_back_pull_back)
+     vc / bc       the world step of vn / bn (theorem new_die_are_ctor_dtor: new = a_alloc + ctor)
+     vx / bx       the world step of vd / bd (die = dtor + a_alloc(ctx, 0)); the x: token is the structure
+                   Vecmodel.wdtor_vec / wdtor_buf (a_vec_dtor / a_buf_dtor) leave behind *)
 open Vecmodel
 
 (* ---- conversions between text and the extracted binary numbers ---- *)
@@ -82,13 +97,13 @@ let pr_out (o : out) =
 
 let rec take k l = if k <= 0 then [] else match l with [] -> [] | x :: t -> x :: take (k - 1) t
 
-let pr_arr tag (present : bool) (hasptr : bool) (a : arr option) =
+let pr_arr tag (present : bool) (hasptr : bool) (owned : string) (a : arr option) =
   match a with
   | None -> pr (" " ^ tag ^ ":nil")
   | Some a ->
       ignore present;
-      pr (Printf.sprintf " %s:z=%s,n=%s,m=%s,p=%d[" tag (dec a.a_siz) (dec a.a_num) (dec a.a_mem)
-            (if hasptr then 1 else 0));
+      pr (Printf.sprintf " %s:z=%s,n=%s,m=%s,p=%d,o=%s[" tag (dec a.a_siz) (dec a.a_num) (dec a.a_mem)
+            (if hasptr then 1 else 0) owned);
       (* live elements: min(num, mem) of them, as the C driver prints *)
       let cmp_lt x y = Int64.unsigned_compare (i64_of_n x) (i64_of_n y) < 0 in
       let k = if cmp_lt a.a_num a.a_mem then a.a_num else a.a_mem in
@@ -96,16 +111,34 @@ let pr_arr tag (present : bool) (hasptr : bool) (a : arr option) =
       if hasptr then pr_list (fun e -> pr (hex_of_elem e)) (take k a.a_sl);
       pr "]"
 
+let pr_acc ok = pr (if ok then " acc=ok" else " acc=MODEL-BAD")
+
+(* bytes the ledger records for block id, minus a header *)
+let owned (w : world) (id : n) (hdr : int64) : string =
+  match List.find_opt (fun (i, _) -> i = id) w.w_heap.h_live with
+  | Some (_, sz) when Int64.unsigned_compare (i64_of_n sz) hdr >= 0 ->
+      Printf.sprintf "%Lu" (Int64.sub (i64_of_n sz) hdr)
+  | _ -> "?"
+
 let pr_vec (w : world) (which : bool) =
   let tag = if which then "v1" else "v0" in
   match (if which then w.w_v1 else w.w_v0) with
-  | None -> pr_arr tag false false None
-  | Some (_, v) -> pr_arr tag true (v.v_ptr <> None) (Some v.v_arr)
+  | None -> pr_arr tag false false "" None
+  | Some (_, v) ->
+      let o = match v.v_ptr with None -> "0" | Some id -> owned w id 0L in
+      pr_arr tag true (v.v_ptr <> None) o (Some v.v_arr); pr_acc (vec_acc_check v)
 
 let pr_buf (w : world) =
   match w.w_b with
-  | None -> pr_arr "b" false false None
-  | Some b -> pr_arr "b" true true (Some b.b_arr)
+  | None -> pr_arr "b" false false "" None
+  | Some b -> pr_arr "b" true true (owned w b.b_blk 24L) (Some b.b_arr); pr_acc (buf_acc_check b)
+
+(* the structure as a_vec_dtor / a_buf_dtor left it (computed on the state BEFORE the step) *)
+let pr_dtor_left (a : (arr * bool) option) =
+  match a with
+  | None -> ()
+  | Some (a, hasptr) -> pr (Printf.sprintf " x:z=%s,n=%s,m=%s,p=%d" (dec a.a_siz) (dec a.a_num) (dec a.a_mem)
+                    (if hasptr then 1 else 0))
 
 let pr_ledger (w : world) =
   let c = List.length w.w_heap.h_live in
@@ -128,9 +161,11 @@ let parse_op (t : string list) : op option =
   | ["ins"; i; v] -> Some (OInsert (n_of_hex i, elem_of_hex v))
   | ["pushf"; v] -> Some (OPushFore (elem_of_hex v))
   | ["pushb"; v] -> Some (OPushBack (elem_of_hex v))
+  | ["push"; v] -> Some (oPush (elem_of_hex v))
   | ["rem"; i] -> Some (ORemove (n_of_hex i))
   | ["pullf"] -> Some OPullFore
   | ["pullb"] -> Some OPullBack
+  | ["pull"] -> Some oPull
   | "store" :: i :: vs :: _ -> Some (OStore (n_of_hex i, elems_of vs))
   | ["erase"; i; c; d] -> Some (OErase (n_of_hex i, n_of_hex c, flag d))
   | ["at"; i] -> Some (OAt (n_of_hex i))
@@ -160,15 +195,21 @@ let () =
               let (w1, r) = wstep_lex !w o in
               w := w1; pr_out r; show w1; pr_ledger w1; pr "\n" in
             (match t with
-             | ["vn"; wh; z] -> step (WVNew (flag wh, n_of_hex z)) (fun w -> pr_vec w (flag wh))
+             | ["vn"; wh; z] | ["vc"; wh; z] -> step (WVNew (flag wh, n_of_hex z)) (fun w -> pr_vec w (flag wh))
              | ["vd"; wh; d] -> step (WVDie (flag wh, flag d)) (fun w -> pr_vec w (flag wh))
+             | ["vx"; wh; d] ->
+                 let left = wdtor_vec !w (flag wh) (flag d) in
+                 step (WVDie (flag wh, flag d)) (fun w -> pr_dtor_left left; pr_vec w (flag wh))
              | ["vs"] -> step WVSwap (fun w -> pr_vec w false; pr_vec w true)
              | "v" :: wh :: rest ->
                  (match parse_op rest with
                   | Some o -> step (WV (flag wh, o)) (fun w -> pr_vec w (flag wh))
                   | None -> pr "?op\n")
-             | ["bn"; z; n] -> step (WBNew (n_of_hex z, n_of_hex n)) pr_buf
+             | ["bn"; z; n] | ["bc"; z; n] -> step (WBNew (n_of_hex z, n_of_hex n)) pr_buf
              | ["bd"; d] -> step (WBDie (flag d)) pr_buf
+             | ["bx"; d] ->
+                 let left = wdtor_buf !w (flag d) in
+                 step (WBDie (flag d)) (fun w -> pr_dtor_left left; pr_buf w)
              | "b" :: rest ->
                  (match parse_op rest with
                   | Some o -> step (WB o) pr_buf
